@@ -261,6 +261,28 @@ func voxColliders() []voxCollider {
 // and numbered from their own counter, so that the records of voxColliders() stay what they were.
 func voxColliders2() []voxCollider {
 	return []voxCollider{
+		// hand-built hierarchies with 2..4 children per branch ("a branch with two or more children") and the
+		// binary one of NewBVHAreaDensity, through BVHToCollider
+		{"BVHToCollider(wide)", func(m *model3d.Mesh, rng *rand.Rand) model3d.Collider {
+			tris := m.TriangleSlice()
+			rng.Shuffle(len(tris), func(i, j int) { tris[i], tris[j] = tris[j], tris[i] })
+			var build func(s []*model3d.Triangle) *model3d.BVH[*model3d.Triangle]
+			build = func(s []*model3d.Triangle) *model3d.BVH[*model3d.Triangle] {
+				if len(s) == 1 {
+					return &model3d.BVH[*model3d.Triangle]{Leaf: s[0]}
+				}
+				k := 2 + rng.Intn(3)
+				if k > len(s) {
+					k = len(s)
+				}
+				node := &model3d.BVH[*model3d.Triangle]{}
+				for i := 0; i < k; i++ {
+					node.Branch = append(node.Branch, build(s[i*len(s)/k:(i+1)*len(s)/k]))
+				}
+				return node
+			}
+			return model3d.BVHToCollider(build(tris))
+		}, false, nil, false},
 		// a joined collider that is a member of two parents: building the second parent must not change the first
 		{"JoinedShared", func(m *model3d.Mesh, rng *rand.Rand) model3d.Collider {
 			tris := m.TriangleSlice()
